@@ -1058,6 +1058,7 @@ LINKS = [
     ("inc/world_core.rs", "impl<T> Timer<T>", "schedule_in", "inc/timer_body.rs", "impl<T> Timer<T>", "schedule_in", {"pending @": "pending ( )", "key . deadline . t as int == tclock ( ) + dur_nanos ( deadline )": "key . deadline . t as int == tclock ( ) + dur_nanos ( deadline )"}),
     ("inc/world_core.rs", "impl<T> Timer<T>", "cancel", "inc/timer_body.rs", "impl<T> Timer<T>", "cancel", {"pending @": "pending ( )"}),
     ("inc/world_core.rs", "impl<T> Timer<T>", "is_empty", "inc/timer_body.rs", "impl<T> Timer<T>", "is_empty", {"pending @": "pending ( )"}),
+    ("inc/world_core.rs", "impl<T> Timer<T>", "new", "inc/timer_body.rs", "impl<T> Timer<T>", "new", {"pending @": "pending ( )"}),
 ]
 
 
